@@ -498,6 +498,15 @@ func TestVerif_C01_e2e(t *testing.T) {
 		}
 		comp, ka := r.Intn(2) == 0, r.Intn(3) != 0
 		method, ruri, lines, body, _ := c01Expected(tc)
+		if pathPart, rest, _ := strings.Cut(ruri, "?"); tc.useBase && pathPart == "//" {
+			// "//" alone (every segment empty) parses as an empty authority with an empty path and
+			// url.URL.String() renders that as "": the two empty segments collapse to "/"
+			ruri = "/"
+			if rest != "" {
+				ruri += "?" + rest
+			}
+			s.Count("empty-segments-collapsed")
+		}
 		want := fmt.Sprintf("%s %s\n%s\nbody %s", method, ruri, strings.Join(lines, "\n"), c01Blob(body))
 		_, callerAE := func() (string, bool) {
 			for _, h := range []http.Header{tc.cHdr, tc.rHdr} {
